@@ -18,9 +18,25 @@ def load_claimed():
             out[fn[:-5]] = json.load(open(os.path.join(d, fn)))
     return out
 
-CLAIMED = load_claimed()
+def registered_models():
+    import re
+    src = open(os.path.join(ROOT, "lean", "UtilModel", "Registry.lean")).read()
+    return set(re.findall(r'mkEntryH?\s+"([^"]+)"', src))
+
+def ready(pid):
+    """a property is claimed only when its check can run with the compiled driver: every model it
+    uses is in the Lean registry (or it uses the lock-table engine)"""
+    cp = os.path.join(ROOT, "checks.d", pid + ".json")
+    if not os.path.exists(cp): return False
+    cfg = json.load(open(cp))
+    if cfg.get("engine") == "locktable": return True
+    models = registered_models()
+    comps = cfg.get("components", [])
+    return bool(comps) and all(c["model"] in models for c in comps)
+
+CLAIMED = {k: v for k, v in load_claimed().items() if ready(k)}
 ALL = ["C%02d" % i for i in range(1, 21)]
-PENDING_REASON = "check not built yet in this session (work in progress; see DESIGN.md §6 for the planned model and theorems)"
+PENDING_REASON = "check not integrated yet (its model is not in the compiled driver's registry); work in progress, see DESIGN.md §6 for the model and theorems"
 
 def main():
     checks = []
